@@ -165,7 +165,8 @@ Inductive pcase :=
 | CPack (v : value) (want : outcome)
 | CDefault (v : value) (want : outcome)
 | CDefined (c : cid) (want : bool)
-| CBlocks (c : cid) (want_unpack want_pack : option (list bdesc)).
+| CBlocks (c : cid) (want_unpack want_pack : option (list bdesc))
+| CEq (a b : value) (want_eq want_ne : bool).       (* a == b and a != b of two constructed packets *)
 Definition agrees (host : bool) (tbl : list (cid * pclass)) (ct : ctab) (x : pcase) : bool :=
   match x with
   | CUnpack c raw off want => outcome_eqb (run_unpack host ct c raw off) want
@@ -174,6 +175,11 @@ Definition agrees (host : bool) (tbl : list (cid * pclass)) (ct : ctab) (x : pca
   | CDefault v want => outcome_eqb (run_default ct v) want
   | CDefined c want => Bool.eqb (match ct_get ct c with Some _ => true | None => false end) want
   | CBlocks c u p => blocks_agree host ct c u p
+  | CEq a b weq wne =>
+      match complete FUEL ct a, complete FUEL ct b with
+      | Some x, Some y => Bool.eqb (pkt_eqb FUEL ct x y) weq && Bool.eqb (pkt_neb FUEL ct x y) wne
+      | _, _ => false
+      end
   end.
 Fixpoint bad_cases (host : bool) (tbl : list (cid * pclass)) (ct : ctab) (i : Z) (cs : list pcase) : list Z :=
   match cs with
